@@ -55,6 +55,10 @@ def reference_digest(t, sign_id, hash_type):
     po = REG.get((bytes(inp.prev_txid).hex(), inp.output_n_int))
     if po is None:
         return None, 'unregistered'
+    if not inp.keys and not inp.signatures:
+        # an input declared by address only whose key has not arrived yet: nothing can be signed or checked with this
+        # digest (sign() computes it before it notices that there is no key)
+        return None, 'no-key-yet'
     snap = snapshot_tx(t)
     if po['segwit']:
         return rtx.sighash_bip143(snap, sign_id, po['script_code'], po['amount'], hash_type), 'bip143'
@@ -305,6 +309,8 @@ def gen_ops(rnd, spec, max_n=3):
             if any(o[0] == 'merge' for o in ops):
                 continue
             other = txgen.gen_spec(rnd, network=spec['network'], n_in=rnd.randint(1, 2), n_out=rnd.randint(1, 2), max_n=max_n)
+            for i in other['ins']:
+                i.pop('addr_only', None)     # the merged transaction arrives unsigned: its inputs must carry their keys
             have = {(i['txid'], i['n']) for i in spec['ins']}
             if any((i['txid'], i['n']) in have for i in other['ins']):
                 continue
@@ -333,7 +339,8 @@ def api_sequence(spec, flow, rnd, col, case):
     self_signed = False
     try:
         t = txgen.build(spec, private_in_inputs=(flow == 'all'), route=case.get('route', 'add_input'))
-        if case.get('sign_first', True):
+        if case.get('sign_first', True) or any(i.get('addr_only') for i in spec['ins']):
+            # (inputs declared by address only get their keys with sign(); the in-place methods refuse before that)
             sign_flow(t, spec, flow, rnd)
         for op in ops:
             wallet_env.reseed(case.get('rseed', 0) & 0xffff)
